@@ -311,8 +311,9 @@ StepClause(st) ==
 ClsOnly(Ms) == \A m \in Ms : (\A p \in DOMAIN m.pos : m.pos[p].k = "cls")
                              /\ (\A p \in DOMAIN m.kwt : m.kwt[p].k = "cls")
 
-DepOnly(Ms) == \A m \in Ms : (\A p \in DOMAIN m.pos : m.pos[p].k \in {"cls", "dep", "lit"})
-                             /\ (\A p \in DOMAIN m.kwt : m.kwt[p].k \in {"cls", "dep", "lit"})
+DepTermOK(t) == t.k = "cls" \/ (t.k \in {"dep", "lit"} /\ t.bound.k = "cls")
+DepOnly(Ms) == \A m \in Ms : (\A p \in DOMAIN m.pos : DepTermOK(m.pos[p]))
+                             /\ (\A p \in DOMAIN m.kwt : DepTermOK(m.kwt[p]))
 
 KindMatches(Ms, o, k, call) ==
   \/ o.kind = k
@@ -392,7 +393,7 @@ Consume ==
          \* it needs at least two supplied positions there (the cross-position form of the artefact)
          \* the level artefact is repaired; the only signature left is the rank artefact of dependent methods (C10)
          \* ... and only when the code did exactly what the Impl layer of value dispatch predicts
-         ks == \/ "C10" \in Props /\ KF_pull_rank(W, MOf(st), st.call) /\ (c = "" \/ ImplValueConsistent(st))
+         ks == \/ "C10" \in Props /\ DepOnly(MOf(st)) /\ KF_pull_rank(W, MOf(st), st.call) /\ (c = "" \/ ImplValueConsistent(st))
                \/ "C06" \in Props /\ ~co /\ DepOnly(MOf(st)) /\ KF_pull_rank(W, MOf(st), st.call)
      IN
        /\ bad' = LET b1 == IF c # ""
